@@ -607,10 +607,22 @@ def r12_1(ctx, rr):
             rr.ob(True, key="%s:%s:%s" % (short_fn(s.body.key), s.cname, s.descr), sample=site_sample(F, s))
         else:
             groups.setdefault((s.body.key, s.cname, s.descr), []).append(s)
+    # entries of functions that no longer exist under that name (renamed, or folded into their callers): their
+    # sites may reappear elsewhere; each such entry can be claimed once by a group with the same callee and obligation
+    present = set(canon_generics(b_.key) for b_ in F.fns()) | set(canon_generics(b_.path) for b_ in F.fns())
+    vanished = {}
+    for e_ in table:
+        if canon_generics(e_["fn"]) not in present:
+            vanished.setdefault((e_["callee"], e_["obligation"]), []).append(e_)
     for k, sites in sorted(groups.items()):
         # table entries name functions as printed on the tree they were confirmed on; compare without the
         # names of generic type parameters
         e = allowed.get((canon_generics(k[0]), k[1], k[2]))
+        if e is None and vanished.get((k[1], k[2])):
+            cand = [x for x in vanished[(k[1], k[2])] if x["count"] >= len(sites)]
+            if cand:
+                e = cand[0]
+                vanished[(k[1], k[2])].remove(e)
         n_allowed = e["count"] if e else 0
         key = "%s:%s:%s" % (short_fn(k[0]), k[1].split("::")[-1], k[2])
         if len(sites) <= n_allowed:
